@@ -341,10 +341,26 @@ class XPathFunction(XPathToken):
 
         if self.label != 'partial function':
             def evaluate(context: ta.ContextType = None) -> 'XPathFunction':
-                return self
+                if context is None or all(tk.symbol == '(value)' or tk.symbol == '?' and not tk
+                                          for tk in self._items):
+                    return self
+
+                # A new function item: the fixed arguments are evaluated now, in the context
+                # of the partial application, not when the function item is called.
+                func = copy(self)
+                for name in ('evaluate', 'select', '_partial_evaluate', '_partial_select'):
+                    func.__dict__.pop(name, None)
+                func.label = 'function'
+                func._items = [
+                    tk if tk.symbol == '?' and not tk else
+                    ValueToken(self.parser, value=tk.evaluate(copy(context)))
+                    for tk in self._items
+                ]
+                func.to_partial_function()
+                return func
 
             def select(context: ta.ContextType = None) -> Iterator['XPathFunction']:
-                yield self
+                yield evaluate(context)
 
             if self.__class__.evaluate is not XPathToken.evaluate:
                 setattr(self, '_partial_evaluate', self.evaluate)
